@@ -72,7 +72,7 @@ RULE = ("%d seed structs (derived GetSeeds with 0..16 fields of Pubkey / u8 / u1
         "without the trailing empty seed) x random and boundary field values x program ids (runtime id through "
         "CurrentProgram, or a fixed StarFrameProgram) x candidate keys {canonical PDA by Seeds and by SeedsWithBump, a lower "
         "valid bump, a wrong bump, PDA of permuted seeds, PDA of a one-bit-perturbed field, PDA under another program, an "
-        "on-curve hash, random and zero keys}, the candidate ACCOUNTS in five states (balance 0 / 1 / u64::MAX, system- / program- / foreign-owned, with and without data, signer / writable flags) + client find/create for several bumps. non-trivial = the case contains at "
+        "on-curve hash, random and zero keys}, every explicit-bump candidate also through Init<Seeded<Account<_>>> + CreateIfNeeded on an already existing account, the candidate ACCOUNTS in five states (balance 0 / 1 / u64::MAX, system- / program- / foreign-owned, with and without data, signer / writable flags) + client find/create for several bumps. non-trivial = the case contains at "
         "least one candidate that passes validation and one that fails" % len(FAMILY))
 TRUSTED = [
     "Coq 8.16.1 kernel", "extraction (ExtrOcamlBasic only) + runner/driver.ml",
@@ -365,6 +365,10 @@ def make_case(rng, sid, pmode=None, pid=None, vals=None):
             cb.append(b)
     for b in cb:
         orc.create(real + [[b]], PROG_ID)
+    # the same explicit-bump decisions reached through Init<Seeded<Account<_>>> + CreateIfNeeded on an account that already
+    # exists (mode 2; only CurrentProgram seeds can be initialised): nothing is created, so no signed CPI checks the address
+    if pmode == 0:
+        cands += [(k, 2, b) for (k, m, b) in cands if m == 1]
     cands = rng.shuffle(cands)
     table = sorted(orc.table.items())
     return encode(sid, pid, pmode, vals, cands, cb, table)
@@ -471,7 +475,7 @@ def predicate(c, obs):
                 cr = orc.create(real + [[bump]], spid)
                 want = cr == ("ok", key)
                 wbump = bump
-            what = "Seeds(S)" if mode == 0 else "SeedsWithBump(S, %d)" % bump
+            what = ("Seeds(S)" if mode == 0 else "SeedsWithBump(S, %d)" % bump) + (" through Init + CreateIfNeeded on an existing account" if mode == 2 else "")
             if tag == 0:
                 rec = r.next()
                 if r.next() != 0:
@@ -498,7 +502,7 @@ def predicate(c, obs):
                     return "validation with %s rejected the derived address (error %s)" % (what, code)
                 if mode == 0 and found is not None and code != E_MISMATCH:
                     return "wrong key rejected with error %s instead of AddressMismatch" % code
-                if mode == 1:
+                if mode >= 1:
                     cr = orc.create(real + [[bump]], spid)
                     exp = E_MISMATCH if cr[0] == "ok" else cr[1]
                     if code != exp:
@@ -592,7 +596,7 @@ def distribution(cases, impl):
             r, _ = parse_obs(o)
             for key, mode, bump in d["cands"]:
                 t = r.next()
-                kind = ("Seeds" if mode == 0 else "WithBump") + ":" + {0: "ok", 1: "err", 2: "panic"}.get(t, "?")
+                kind = ("Seeds" if mode == 0 else "WithBump" if mode == 1 else "InitWithBump") + ":" + {0: "ok", 1: "err", 2: "panic"}.get(t, "?")
                 if t == 0:
                     _skip_ok(r)
                 elif t == 1:
